@@ -7,7 +7,7 @@ class C28(Spec):
     harness = "h_c28"
     lean_deps = ("C25", "C27", "C20")
     required_theorems = ("C28.chain_tx_unexpired_fee_chainid", "C28.chain_tx_signed_full_false",
-                         "C28.chain_tx_signed_partial", "C28.chain_tx_unique_partial")
+                         "C28.chain_tx_signed_partial", "C28.chain_tx_unique_partial", "C28.produced_block_clean")
     partial = ("C28.chain_tx_signed_partial", "C28.chain_tx_unique_partial")
     refuted = ("C28.chain_tx_signed_full_false",)
     quick_timeout = 900
@@ -19,11 +19,14 @@ class C28(Spec):
                   "reorganisations) and mempool events, every transaction on the best chain is unexpired and passes fee and "
                   "chain-id checks (chain_tx_unexpired_fee_chainid); no transaction hash occurs twice and the tx index is "
                   "exact (chain_tx_unique_partial: no TxHeight transactions, one body per block hash); every transaction is "
-                  "correctly signed IF no two instances of one hash differ in signature validity (chain_tx_signed_partial). "
+                  "correctly signed IF no two instances of one hash differ in signature validity (chain_tx_signed_partial); what the "
+                  "node keeps of a body offered to its own block production is duplicate-free, unexpired and fee/chain-id "
+                  "clean in any state (produced_block_clean). "
                   "The unconditional signature clause is FALSE of model and code (S-C28, refuted on a witness and replayed "
                   "on the real node: victim debited). Tie: generated submission histories (duplicates in one block / later "
                   "block / after reorganisation, TxHeight inside and outside small windows, expired, low-fee, wrong chain id, "
-                  "unpayable, mis-signed with and without the hash in the pool) offered as peer blocks; results, chain, "
+                  "unpayable, mis-signed with and without the hash in the pool) offered as peer blocks and to the node's own "
+                  "block production (ExecBlock with errReturn=false on the tip); results, surviving transactions, chain, "
                   "bodies, tx index, pool membership compared with the Lean driver; the best chain of the implementation "
                   "scanned for the property predicate.")
     level_note = ("transaction attributes (signature valid, fee/chain ok, expiry class, hash class) are oracle inputs "
